@@ -263,9 +263,14 @@ class Eval:
                     self.env[hid] = self.some.get(src, top(self.c.types[_find_bind(cnd["pat"], hid)["t"]].lstrip("&")))
             else:
                 self.eval(n["c"])
+            ref = self._refinement(cnd)
+            if ref:
+                self._apply_ref(ref, True)
             a = self.eval(n["th"])
             st1 = (self.env, self.fields, self.cells)
             self.env, self.fields, self.cells = (dict(st0[0]), dict(st0[1]), dict(st0[2]))
+            if ref:
+                self._apply_ref(ref, False)
             b = self.eval(n["el"]) if n["el"] is not None else None
             st2 = (self.env, self.fields, self.cells)
             self.env, self.fields, self.cells = [_join_maps(x, y) for x, y in zip(st1, st2)]
@@ -334,6 +339,40 @@ class Eval:
             self.fields[f] = inv
         self.symfacts = saved_facts
         return top("()")
+
+    def _refinement(self, cnd):
+        """`x > 0.0` / `x >= 0.0` / `0.0 < x` with x a cell or local -> (kind, key, strict)"""
+        if cnd.get("k") != "bin" or cnd["op"] not in ("Gt", "Ge", "Lt", "Le"):
+            return None
+        l, r, op = strip(cnd["l"]), strip(cnd["r"]), cnd["op"]
+        if l.get("k") == "lit" and r.get("k") != "lit":
+            l, r = r, l
+            op = {"Gt": "Lt", "Lt": "Gt", "Ge": "Le", "Le": "Ge"}[op]
+        if r.get("k") != "lit" or Fr(r["v"].replace("_", "").rstrip("f32").rstrip("f64") or "0") != 0:
+            return None
+        ck = self.cellkey(l)
+        if ck is not None:
+            return ("cell", ck, op)
+        if l.get("k") == "local":
+            return ("env", l["hid"], op)
+        return None
+
+    def _apply_ref(self, ref, branch):
+        kind, key, op = ref
+        store = self.cells if kind == "cell" else self.env
+        v = store.get(key)
+        if v is None or v.ty not in ("f32", "f64"):
+            return
+        tiny = Fr(1, 2 ** 149)   # smallest positive f32
+        pos = (op in ("Gt", "Ge")) == branch
+        strict = (op in ("Gt", "Lt")) == branch
+        if pos:
+            lo = max(v.lo, tiny if strict else Fr(0))
+            store[key] = AV(lo, max(v.hi, lo), False if branch else v.nan, v.lbs, v.ubs, v.ty)
+        else:
+            hi = min(v.hi, -tiny if strict else Fr(0))
+            # the negated comparison also holds for NaN
+            store[key] = AV(min(v.lo, hi), hi, v.nan if not branch else False, v.lbs, v.ubs, v.ty)
 
     def assign(self, l, v):
         l = strip(l)
